@@ -251,6 +251,8 @@ class Ctx:
         self.inputs = {}        # label -> z3 const (for counter-model extraction)
         self.input_meta = {}    # label -> kind
         self.class_state = {}
+        self.deadline = None     # wall-clock end of the exploration task this path belongs to
+        self.write_log = None    # set of (oid, key) while a loop's havoc functions run (their footprint)
         self.pure = 0
         self.pure_floor = 0
         self.allow_mut = 0
@@ -286,10 +288,13 @@ class Ctx:
     def obj(self, ref):
         return self.heap[ref.oid]
 
-    def mutate(self, ref):
-        """must be called before any in-place change of a heap object"""
+    def mutate(self, ref, key=None):
+        """must be called before any in-place change of a heap object; `key` names the one location
+        that changes (attribute name / ("i", index)), None = the object as a whole"""
         if self.pure and not self.allow_mut and ref.oid < self.pure_floor:
             raise ImpureAbort()
+        if self.write_log is not None:
+            self.write_log.add((ref.oid, key))
         return self.heap[ref.oid]
 
     # ----------------------------------------------------------------- symbols
@@ -386,6 +391,8 @@ class Ctx:
                 return False
             raise ImpureAbort()
         fp = e.hash()
+        if self.deadline is not None and time.time() > self.deadline:
+            raise Unsupported("time budget of the exploration task exhausted inside one path (unbounded loop?)")
         if self.pos < len(self.prefix):
             d = self.prefix[self.pos]
             if self.pos < len(self.prefix_fps) and self.prefix_fps[self.pos] != fp:
